@@ -12,6 +12,10 @@ From Coq Require Import ZArith List Bool.
 From OV Require Import Ops Gen.RealRays Gen.Standard Gen.Geometries Gen.Apertures Gen.C07K Model.Trace.
 Import ListNotations.
 
+(** list surgery used to state re-descriptions of a lens *)
+Definition insert_at {A} (n : nat) (x : A) (l : list A) : list A := firstn n l ++ x :: skipn n l.
+Definition replace_at {A} (n : nat) (x : A) (l : list A) : list A := firstn n l ++ x :: skipn (S n) l.
+
 Section C07.
   Context {O : Ops}.
   Notation T := (T O).
